@@ -143,3 +143,26 @@ Theorem code_arriba_cli_is_model : forall genes chroms o rows,
   Py_parse_arriba.py_arriba_cli genes chroms o rows = cli Arriba genes chroms o rows.
 Proof. exact code_py_arriba_cli_is_model_l. Qed.
 Print Assumptions code_arriba_cli_is_model.
+
+(* TranscriptAnnotationModel.get_upstream_exon_end / get_downstream_exon_start (the exon look-ups of
+   VariantRecord.shift_breakpoint_to_closest_exon for an intronic fusion breakpoint), translated from the source on
+   every run (coq/Gen/Py_TranscriptAnnotationModel_fusion.v): None = the function's ValueError or the UnboundLocalError
+   of `ind` when the first exon already ends the loop.  Hypothesis: exon coordinates are non-negative and exons
+   non-empty (the code uses -1 as "not found", the model an option). *)
+From MoPep Require Gen.Py_TranscriptAnnotationModel_fusion.
+
+Theorem code_exon_lookups_translated :
+  Py_TranscriptAnnotationModel_fusion.py_upstream_exon_end_untranslated = false /\
+  Py_TranscriptAnnotationModel_fusion.py_downstream_exon_start_untranslated = false.
+Proof. vm_compute. split; reflexivity. Qed.
+Print Assumptions code_exon_lookups_translated.
+
+Theorem code_upstream_exon_end_is_model : forall strand ex pos, Forall (fun x : exon => 0 <= fst x < snd x) ex ->
+  Py_TranscriptAnnotationModel_fusion.py_upstream_exon_end strand ex pos = upstream_exon_end strand ex pos.
+Proof. exact code_upstream_exon_end_is_model_l. Qed.
+Print Assumptions code_upstream_exon_end_is_model.
+
+Theorem code_downstream_exon_start_is_model : forall strand ex pos, Forall (fun x : exon => 0 <= fst x < snd x) ex ->
+  Py_TranscriptAnnotationModel_fusion.py_downstream_exon_start strand ex pos = downstream_exon_start strand ex pos.
+Proof. exact code_downstream_exon_start_is_model_l. Qed.
+Print Assumptions code_downstream_exon_start_is_model.
